@@ -721,6 +721,11 @@ package throttle
 // (the generation getOrAdd stores on every access) lies at least limitersExp behind
 // the clock value read for this sweep; that clock value becomes the map's generation.
 
+// (A limiter is deleted only under the write lock, only when it was idle for the
+// expiration time, and the generation that says so was read under THIS hold of the lock:
+// a key found expired under an earlier hold may have been used since - deleting it gives
+// the key a second budget in the same bucket.)
+
 //@ func (*limitersMap).maintenance
 //@   ghost wl bool = false
 //@   ghost gl int = 0
@@ -728,10 +733,10 @@ package throttle
 //@   ghost nload int = 0
 //@   requires l.mu != nil
 //@   loop 1 invariant !wl
-//@   loop 2 invariant wl && l.curGen == gnow
 //@   callee Lock()
 //@     pure
 //@     set wl := true
+//@     set gep := gep + 1
 //@   callee Unlock()
 //@     requires wl
 //@     pure
@@ -744,8 +749,13 @@ package throttle
 //@     pure
 //@     set gl := r
 //@     set nload := nload + 1
-//@   assert at "delete(l.lims, key)" wl && gnow - gl >= l.limitersExp
-//@   assert at "delete(l.limsCfg, key)" wl && gnow - gl >= l.limitersExp
+//@     set glep := gep
+//@   ghost gep int = 0
+//@   ghost glep int = -1
+//@   callee mapdelete:lims(k)
+//@     requires wl && gnow - gl >= l.limitersExp && glep == gep
+//@   callee mapdelete:limsCfg(k)
+//@     requires wl && gnow - gl >= l.limitersExp && glep == gep
 
 // rebuild (C16: "events timed outside the retained window count against the newest
 // bucket"; the window follows the wall clock): the ring's own meta data, the wall-clock
